@@ -208,7 +208,7 @@ def run(ctx):
     # the translation tie: the control skeletons of get_next_imf / sift / mask_sift are regenerated from the source and the
     # refinement theorems to the models used by this property's theorems are re-checked
     ctx.proof(extra=['props/Prop_Tie_Sift.v'])
-    n = 60 if ctx.quick() else 2500
+    n = 60 if ctx.quick() else 1000
     cases = []
     for i in range(n):
         for kind in ('sift', 'mask', 'ensemble', 'ceemd', 'second'):
@@ -300,7 +300,7 @@ def run(ctx):
         if e != 0 and exp != [want] and len(bad) < 9:
             bad.append(('mask_cap', dict(max_imfs=m, explicit=e), [want], exp))
     # ---- real numerics
-    nsig = 20 if ctx.quick() else 600
+    nsig = 20 if ctx.quick() else 250
     sigs = siftcore.real_signals(ctx.seed + 3, nsig, 40, 160)
     for i, (fam, x) in enumerate(sigs):
         kind = ('sift', 'mask', 'ensemble', 'ceemd', 'second')[i % 5]
